@@ -1567,6 +1567,14 @@ def cache_stream(ctx, designs):
                       dict(source=mine, model_old_order=head, model_guard_last=fixed))
         ctx.count('cache-design:%s:%s' % (k_, 'as-transcribed-head' if mine == head else 'guard-written-last' if mine == fixed else 'unknown'))
     hist = cache_histories(ctx, ctx.n(6, 60))
+    # a provider call the translator no longer finds in _populate_cache (moved into a helper, renamed): the tie is broken for the
+    # histories that fail there - reported as such, never as a harness exception; the remaining histories and every other stream run
+    missing = sorted({(h['kind'], st[2:]) for h in hist for st in h['steps'] if st.startswith('f:') and st[2:] not in designs[h['kind']]['fail_at']})
+    if missing:
+        ctx.disagreements += 1
+        ctx.broke('translator', 'C05 beam_cache: provider call(s) not found in _populate_cache of the current source: %s' % missing,
+                  dict(missing=missing, fail_at={k_: designs[k_]['fail_at'] for k_ in designs}))
+        hist = [h for h in hist if not any(st.startswith('f:') and st[2:] not in designs[h['kind']]['fail_at'] for st in h['steps'])]
     res = cache_run_impl(hist)
     lines = []
     for h in hist:
